@@ -14,8 +14,11 @@ package main
 import (
 	"bytes"
 	"context"
+	"encoding/json"
+	"flag"
 	"fmt"
 	"os"
+	"os/exec"
 	"path/filepath"
 	"strconv"
 	"strings"
@@ -333,7 +336,7 @@ func (r *runner) serve(p *proc, o hop) (class string, hdr uint64) {
 		}
 	}
 	p.expect++
-	if !lib.WaitUntil(3*time.Second, func() bool { return p.b.GetCurrentRevision() >= p.expect }) {
+	if !lib.WaitUntil(8*time.Second, func() bool { return p.b.GetCurrentRevision() >= p.expect }) {
 		r.fail = fmt.Sprintf("stalled: committed revision %d never reached %d after %s %s (response %s)", p.b.GetCurrentRevision(), p.expect, o.Kind, o.Key, class)
 	}
 	r.steps = append(r.steps, stepObs{
@@ -773,10 +776,53 @@ func campaignCase(scratch string, hist []hop) *lib.ImplFailure {
 	return nil
 }
 
+// f1Witness: one success, ten failed creates, one success (finding C15-F1's history)
+func f1Witness() []hop {
+	w := []hop{{Kind: "create", Key: prefix + "/a", Val: "x"}}
+	for i := 0; i < 10; i++ {
+		w = append(w, hop{Kind: "create", Key: prefix + "/a", Val: "y" + strconv.Itoa(i)})
+	}
+	return append(w, hop{Kind: "create", Key: prefix + "/b", Val: "z"})
+}
+
+// runCampaignChild runs campaignCase in a child process: Campaign() never returns, its elector keeps
+// renewing, and OnStoppedLeading ends the process through klog.Fatal — the child prints its verdict and
+// exits at once without ever cancelling the elector; the parent only reads the verdict.
+func runCampaignChild(scratch string) (string, *lib.ImplFailure) {
+	ctx, cancel := context.WithTimeout(context.Background(), 60*time.Second)
+	defer cancel()
+	cmd := exec.CommandContext(ctx, os.Args[0], "-campaign-child", "-scratch", scratch)
+	cmd.Stderr = nil
+	out, err := cmd.Output()
+	i := bytes.LastIndex(out, []byte("CAMPAIGN-VERDICT "))
+	if i < 0 {
+		return "", &lib.ImplFailure{What: fmt.Sprintf("campaign: the child process running the real Campaign() ended without a verdict (%v): a panic, klog.Fatal (leader lost / invalid leader info) or a hang", err)}
+	}
+	var v struct {
+		OK   bool             `json:"ok"`
+		Fail *lib.ImplFailure `json:"fail"`
+	}
+	if jerr := json.Unmarshal(bytes.TrimSpace(out[i+len("CAMPAIGN-VERDICT "):]), &v); jerr != nil {
+		return "", &lib.ImplFailure{What: "campaign: unreadable verdict: " + jerr.Error()}
+	}
+	if !v.OK {
+		return "", v.Fail
+	}
+	return "real leader.NewLeaderElection(...).Campaign() in a child process: acquired a released lock on memkv over a store with data; callback delayed at its gauge while a client polled IsLeader() and at once issued a guarded Update and a Create; version, IsLeader, List(0) and guarded updates checked", nil
+}
+
 func main() {
 	lib.QuietLogs()
 	lib.ElInstallHook()
+	child := flag.Bool("campaign-child", false, "internal: run the real Campaign() once and print the verdict")
 	args := lib.ParseArgs()
+	if *child {
+		f := campaignCase(args.Scratch, f1Witness())
+		b, _ := json.Marshal(map[string]interface{}{"ok": f == nil, "fail": f})
+		fmt.Printf("\nCAMPAIGN-VERDICT %s\n", b)
+		os.Stdout.Sync()
+		os.Exit(0)
+	}
 	rnd := lib.NewRand(args.Seed)
 	engines := []string{lib.EngBadger, lib.EngTiKV, lib.EngMem}
 	nHist, hLen := 6, 10
@@ -789,6 +835,9 @@ func main() {
 	var cases []lib.Case
 	var fails []lib.ImplFailure
 	add := func(cs caseSpec) {
+		if len(fails) >= 6 {
+			return // enough concrete failing inputs; every further case would cost its time-outs
+		}
 		c, f := runCase(cs, args.Scratch)
 		if f != nil {
 			f.CaseID = len(cases)
@@ -827,15 +876,12 @@ func main() {
 		}
 	}
 
-	campaign := "not run (thorough tier only)"
-	if args.Tier == "thorough" {
-		if f := campaignCase(args.Scratch, witness); f != nil {
-			f.CaseID = len(cases)
-			fails = append(fails, *f)
-			campaign = "failed: " + f.What
-		} else {
-			campaign = "real leader.NewLeaderElection(...).Campaign() acquired a released lock on memkv; version, IsLeader, List(0) and guarded updates checked"
-		}
+	// every tier: the real Campaign() once (child process, about 1-2 s)
+	campaign, cf := runCampaignChild(args.Scratch)
+	if cf != nil {
+		cf.CaseID = len(cases)
+		fails = append(fails, *cf)
+		campaign = "failed: " + cf.What
 	}
 
 	header := "From Coq Require Import String.\nFrom KB Require Import Model.C15Cases.\n" + strings.Join(dictDefs, "\n")
